@@ -36,9 +36,14 @@ Bus(tier) == 2^MaxSize(tier)
 (* the page (carry chains of the address adder, bursts that end on the page boundary)      *)
 Offsets(tier) == IF tier = "thorough" THEN (0..63) \cup (1984..2047) \cup (4032..4095)
                  ELSE (0..63) \cup {2047, 4032, 4064, 4088, 4092, 4095}
+(* wide buses (128..1024 bit beats): long INCR bursts whose byte offset passes 2048 and reaches the *)
+(* end of the 4 KB page - the range in which the signed beat-offset arithmetic of an expander is  *)
+(* closest to its limits                                                                          *)
+Wide == { r \in {0, 64, 2048} \X {15, 31, 63, 127, 255} \X (4..7) \X {INCR, WRAP} :
+            LegalShape(r[1], r[2], r[3], r[4], 128) }
 Requests(tier) ==
   { r \in Offsets(tier) \X Lens \X (0..MaxSize(tier)) \X {FIXED, INCR, WRAP} :
-      LegalShape(r[1], r[2], r[3], r[4], Bus(tier)) }
+      LegalShape(r[1], r[2], r[3], r[4], Bus(tier)) } \cup Wide
 (* the subset that is also run under stalls in the quick tier *)
 Short(r) == r[2] <= 16
 
